@@ -28,6 +28,9 @@ pub struct Case16 {
     /// how negative cells were written (statistics)
     #[serde(default)]
     pub shapes: Vec<String>,
+    /// numeric cells written in a notation okane does not know (statistics): "<column>:<notation>"
+    #[serde(default)]
+    pub junk: Vec<String>,
 }
 
 // ---------------------------------------------------------------- the csv / chrono oracles
@@ -370,6 +373,15 @@ pub fn gen_case(r: &mut Rng) -> Case16 {
     let n_rows = 1 + r.below(8);
     let mut day = r.below(300) as i64;
     let wrong_balance_at = if r.chance(1, 14) { Some(r.below(n_rows)) } else { None };
+    // one numeric cell of one row in a notation okane's number grammar does not know, or with
+    // trailing junk: the statement must be refused (or that very figure booked), never another figure
+    let junk_at: Option<(u64, usize)> = if r.chance(1, 6) {
+        let numeric: Vec<usize> = keys.iter().copied().filter(|k| [K_AMOUNT, K_CREDIT, K_DEBIT, K_BALANCE, K_RATE, K_SECONDARY_AMOUNT, K_CHARGE].contains(k)).collect();
+        Some((r.below(n_rows), *r.pick(&numeric)))
+    } else {
+        None
+    };
+    let mut junk: Vec<String> = Vec::new();
     let mut rows: Vec<Vec<String>> = Vec::new();
     for i in 0..n_rows {
         day += *r.pick(&[0i64, 0, 1, 1, 2, 5, 30]);
@@ -398,7 +410,11 @@ pub fn gen_case(r: &mut Rng) -> Case16 {
             }
         }
         if conv_cols && r.chance(3, 5) {
-            let rate = d(*r.pick(&RATES));
+            // one row in five states a rate of exactly one: a fund at 1.00 a share, a pegged currency
+            let rate = if r.chance(1, 5) { d(*r.pick(&["1", "1.0", "1.00", "1.000"])) } else { d(*r.pick(&RATES)) };
+            if rate == Decimal::ONE {
+                shapes.push("rate_cell:exactly one (1, 1.0, 1.00, $1.00)");
+            }
             rate_t = if r.chance(1, 40) { "0".into() } else { num_text(&rate, if style == NumStyle::Grouped { NumStyle::Plain } else { style }, &comm) };
             let sec = Decimal::new(1 + r.below(20000) as i64, *r.pick(&[0u32, 2, 4]));
             sec_comm_t = if r.chance(1, 10) { String::new() } else { (*r.pick(&["VYM", "EUR", "JPY"])).to_string() };
@@ -494,6 +510,27 @@ pub fn gen_case(r: &mut Rng) -> Case16 {
                 },
             });
         }
+        if let Some((ji, jk)) = junk_at {
+            if ji == i {
+                let mut k = jk;
+                if (k == K_CREDIT || k == K_DEBIT) && rec[col_of(k).unwrap()].is_empty() {
+                    k = if k == K_CREDIT { K_DEBIT } else { K_CREDIT };
+                }
+                let ci = col_of(k).unwrap();
+                let old = rec[ci].clone();
+                let digits: String = old.chars().filter(|c| c.is_ascii_digit() || *c == '.').collect();
+                let v = if digits.is_empty() || old.is_empty() {
+                    if k == K_CREDIT || k == K_DEBIT || k == K_AMOUNT { None } else { Some(Decimal::new(1 + r.below(900_000) as i64, 2)) }
+                } else {
+                    Decimal::from_str(&digits).ok()
+                };
+                if let Some(v) = v {
+                    let (t, tag, _) = foreign_number(r, old.contains('-'), v.mantissa().unsigned_abs() as u64, v.scale());
+                    rec[ci] = t;
+                    junk.push(format!("{}:{}", FKEYS[k], tag));
+                }
+            }
+        }
         rows.push(rec);
     }
     if r.chance(1, 25) {
@@ -526,7 +563,7 @@ pub fn gen_case(r: &mut Rng) -> Case16 {
     if payee_template {
         optional_names.push("payee_template".into());
     }
-    Case16 { doc, path: "data/okane/2021.csv".into(), csv, date_col: col_of(K_DATE).unwrap(), opening, optional: optional_names, shapes: shapes.iter().map(|s| s.to_string()).collect() }
+    Case16 { doc, path: "data/okane/2021.csv".into(), csv, date_col: col_of(K_DATE).unwrap(), opening, optional: optional_names, shapes: shapes.iter().map(|s| s.to_string()).collect(), junk }
 }
 
 // ---------------------------------------------------------------- emit
@@ -593,6 +630,10 @@ pub fn emit(sh: &mut Shards, st: &mut Stats, c: &Case16, tag: &str) {
     }
     for sh in &c.shapes {
         st.count(sh);
+    }
+    for j in &c.junk {
+        st.count(&format!("junk_cell:{}", j));
+        st.count(&format!("junk_cell outcome:{}", match &imp { ImpObs::Ok(..) => "imported".to_string(), ImpObs::Err(k, _) => format!("refused (error kind {})", k), _ => "other".to_string() }));
     }
     for (_, p) in &fmt.fields {
         st.count(match p {
@@ -666,7 +707,7 @@ fn corpus_cases(o: &Opts) -> (Vec<Case16>, bool) {
 pub fn run(o: &Opts) {
     let mut st = Stats::new();
     let mut sh = Shards::new(&o.out, if o.thorough { o.shards * 6 } else { o.shards }, &format!("{} Run.Classify_C16.\nImport ListNotations.\nOpen Scope N_scope.", crate::c17::HEADER));
-    st.rule = "CSV statements generated from 1-8 chronological rows with a running balance per commodity, written under a random layout (columns shuffled with junk columns; fields by index / label / template; delimiter default , ; tab; 0-2 skipped head lines; four date formats; amount or credit/debit columns; optional category, note, balance, commodity, rate, secondary amount, secondary commodity, charge columns; plain / grouped / `$`-prefixed / commodity-code-prefixed / commodity-suffixed numbers; under the prefixed styles amount, credit, debit, balance, charge and secondary-amount cells carry the minus sign before the prefix (-$1.46, -USD 5) or after it ($-1,950.25, USD -5, USD-5), with or without grouping commas; occasional reversals written as a negative credit / debit and refunded (negative) charges) x asset/liability x both row orders, with 0-4 rewrite rules; through load_from_yaml, select, import::import(Csv), to_double_entry, the printing of ImportCmd and report::process over funding + printed text; non-trivial = import succeeded, some amount is non-zero and at least one optional column is used; distinct by YAML + CSV".into();
+    st.rule = "CSV statements generated from 1-8 chronological rows with a running balance per commodity, written under a random layout (columns shuffled with junk columns; fields by index / label / template; delimiter default , ; tab; 0-2 skipped head lines; four date formats; amount or credit/debit columns; optional category, note, balance, commodity, rate, secondary amount, secondary commodity, charge columns; plain / grouped / `$`-prefixed / commodity-code-prefixed / commodity-suffixed numbers; under the prefixed styles amount, credit, debit, balance, charge and secondary-amount cells carry the minus sign before the prefix (-$1.46, -USD 5) or after it ($-1,950.25, USD -5, USD-5), with or without grouping commas; occasional reversals written as a negative credit / debit and refunded (negative) charges; one row in five of those with a conversion states a rate of exactly one (1, 1.0, 1.00, 1.000, $1.00) under every conversion mode; one statement in six has one amount / credit / debit / balance / rate / secondary-amount / charge cell in a notation okane's number grammar does not know or with trailing junk: 6'540.35, 1 234.56 (space or no-break space), 12.50-, (12.50), +12.50, 1.234,56, 12,50, 1,23,456.78, 12..5, 12.50*, 12.50 EUR*, 5 USD EUR, --5, 1.5e0, 12.5x - which must be refused with the number error or booked as exactly that figure) x asset/liability x both row orders, with 0-4 rewrite rules; through load_from_yaml, select, import::import(Csv), to_double_entry, the printing of ImportCmd and report::process over funding + printed text; non-trivial = import succeeded, some amount is non-zero and at least one optional column is used; distinct by YAML + CSV".into();
     st.assumptions.push("numbers have at most 9 significant digits and scale <= 4; rates come from a pool of products of powers of 2 and 5 so that Decimal division is exact".into());
     st.assumptions.push("the csv crate's tokenisation (after skip.head, with the configured delimiter) and chrono's date parsing are oracles: the model receives the records and the day numbers they produce".into());
     st.assumptions.push("white space in note fields is ASCII".into());
